@@ -206,29 +206,32 @@ Proof.
 Qed.
 
 (* ---------- what the visitor is handed is the value the body encodes ---------- *)
-Theorem attr_value_annotations X V rs name l : xtable_ok X = true ->
+Theorem attr_value_annotations X V rs loc name l : xtable_ok X = true ->
+  existsb (str_eqb name) (vn_type_annotations V) = false ->
   existsb (str_eqb name) (vn_annotations V) = true -> forallb (annotation_ok X) l = true ->
-  attr_value X V rs name false (enc_annotations X l) = Some (canon_annotations X rs l).
+  attr_value X V rs loc name false (enc_annotations X l) = Some (canon_annotations X rs l).
 Proof.
-  intros HX Hn Hok. unfold attr_value. rewrite Hn.
+  intros HX Ht Hn Hok. unfold attr_value. rewrite Ht, Hn.
   rewrite <- (app_nil_r (enc_annotations X l)), (p_annotations_enc X HX l [] Hok). reflexivity.
 Qed.
 
-Theorem attr_value_element X V rs name v : xtable_ok X = true ->
+Theorem attr_value_element X V rs loc name v : xtable_ok X = true ->
+  existsb (str_eqb name) (vn_type_annotations V) = false ->
   existsb (str_eqb name) (vn_annotations V) = false -> str_eqb name (vn_element V) = true ->
   value_ok X v = true -> (depth v <= xt_depth X)%nat ->
-  attr_value X V rs name false (enc_value X v) = Some (canon_value X rs v).
+  attr_value X V rs loc name false (enc_value X v) = Some (canon_value X rs v).
 Proof.
-  intros HX Hn He Hok Hd. unfold attr_value. rewrite Hn, He.
+  intros HX Ht Hn He Hok Hd. unfold attr_value. rewrite Ht, Hn, He.
   rewrite <- (app_nil_r (enc_value X v)), (p_value_enc X HX _ v [] Hok Hd). reflexivity.
 Qed.
 
-Theorem attr_value_index X V rs name i :
+Theorem attr_value_index X V rs loc name i :
+  existsb (str_eqb name) (vn_type_annotations V) = false ->
   existsb (str_eqb name) (vn_annotations V) = false -> str_eqb name (vn_element V) = false ->
   existsb (str_eqb name) (vn_index V) = true ->
-  attr_value X V rs name false (e16 i) = Some [rs_str rs i].
+  attr_value X V rs loc name false (e16 i) = Some [rs_str rs i].
 Proof.
-  intros Hn He Hi. unfold attr_value. rewrite Hn, He, Hi.
+  intros Ht Hn He Hi. unfold attr_value. rewrite Ht, Hn, He, Hi.
   rewrite <- (app_nil_r (e16 i)), rd16_e16. reflexivity.
 Qed.
 
@@ -259,14 +262,108 @@ Proof.
   - cbn [app rd8]. rewrite to_nat_elen. apply p_rows_enc. exact Hw.
 Qed.
 
-Theorem attr_value_layout X V rs name lay rows :
+Theorem attr_value_layout X V rs loc name lay rows :
+  existsb (str_eqb name) (vn_type_annotations V) = false ->
   existsb (str_eqb name) (vn_annotations V) = false -> str_eqb name (vn_element V) = false ->
   existsb (str_eqb name) (vn_index V) = false -> assoc_layout name (vn_layouts V) = Some lay ->
   rows_ok lay rows = true ->
-  attr_value X V rs name false (enc_layout lay rows) = Some (canon_layout rs lay rows).
+  attr_value X V rs loc name false (enc_layout lay rows) = Some (canon_layout rs lay rows).
 Proof.
-  intros Hn He Hi Hl Hok. unfold attr_value. rewrite Hn, He, Hi, Hl.
+  intros Ht Hn He Hi Hl Hok. unfold attr_value. rewrite Ht, Hn, He, Hi, Hl.
   rewrite <- (app_nil_r (enc_layout lay rows)), (p_layout_enc lay rows [] Hok). reflexivity.
+Qed.
+
+(* ---------- type annotations ---------- *)
+Lemma loop_trows_enc rows rest : loop_trows (length rows) (enc_trows rows ++ rest) = Ok (rows, rest).
+Proof.
+  induction rows as [|[[a b] c] rows IH]; [reflexivity|].
+  cbn [length loop_trows enc_trows flat_map fst snd]. rewrite <- !app_assoc, rd16_e16, rd16_e16, rd16_e16.
+  fold (enc_trows rows). rewrite IH. reflexivity.
+Qed.
+
+Lemma p_tfield_enc f v rest : tval_fits f v = true -> p_tfield f (enc_tval f v ++ rest) = Ok (v, rest).
+Proof.
+  destruct f, v as [x|rows]; cbn [tval_fits p_tfield enc_tval]; try discriminate; intros _.
+  - reflexivity.
+  - rewrite rd16_e16. reflexivity.
+  - rewrite rd16_e16. reflexivity.
+  - rewrite <- app_assoc, rd16_e16, to_nat_elen, loop_trows_enc. reflexivity.
+Qed.
+
+Lemma p_tfields_enc fs : forall vs rest, tvals_fit fs vs = true -> p_tfields fs (enc_tvals fs vs ++ rest) = Ok (vs, rest).
+Proof.
+  induction fs as [|f fs IH]; intros [|v vs] rest H; cbn [tvals_fit] in H; try discriminate H; [reflexivity|].
+  apply andb_true_iff in H as [Hv Hs]. cbn [p_tfields enc_tvals]. rewrite <- app_assoc, (p_tfield_enc f v _ Hv), (IH vs rest Hs). reflexivity.
+Qed.
+
+Lemma loop_path_enc K path rest : path_ok K path = true ->
+  loop_path K (length path) (flat_map (fun p => [fst p; snd p]) path ++ rest) = Ok (path, rest).
+Proof.
+  induction path as [|[k i] path IH]; intros H; [reflexivity|].
+  cbn [path_ok forallb fst snd] in H. apply andb_true_iff in H as [Hk Hs].
+  cbn [length loop_path flat_map fst snd app rd8].
+  destruct (assocN k K) as [indexed|]; [|discriminate Hk]. rewrite Hk, (IH Hs). reflexivity.
+Qed.
+
+Lemma p_type_path_enc K path rest : path_ok K path = true -> p_type_path K (enc_path path ++ rest) = Ok (path, rest).
+Proof. intros H. unfold p_type_path, enc_path. cbn [app rd8]. rewrite to_nat_elen. apply loop_path_enc. exact H. Qed.
+
+Lemma p_tannot_enc X K tbl a rest : xtable_ok X = true -> tannot_ok X K tbl a = true ->
+  p_tannot X K tbl (enc_tannot X tbl a ++ rest) = Ok (a, rest).
+Proof.
+  intros HX H. unfold tannot_ok in H. apply andb_true_iff in H as [H Ha]. apply andb_true_iff in H as [Ht Hp].
+  destruct a as [t vs path ty ps]. cbn [ta_tag ta_info ta_path ta_type ta_pairs] in *.
+  unfold p_tannot, enc_tannot, p_target. cbn [ta_tag ta_info ta_path ta_type ta_pairs app rd8].
+  destruct (assocN t tbl) as [fs|]; [|discriminate Ht].
+  rewrite <- !app_assoc, (p_tfields_enc fs vs _ Ht), (p_type_path_enc K path _ Hp), rd16_e16, rd16_e16, to_nat_elen.
+  rewrite loop_pairs_enc; [reflexivity|].
+  unfold annotation_ok in Ha. cbn [snd] in Ha. rewrite forallb_forall in Ha. apply Forall_forall. intros p Hin r.
+  specialize (Ha p Hin). apply andb_true_iff in Ha as [Hv Hd]. apply Nat.leb_le in Hd.
+  apply (p_value_enc X HX); assumption.
+Qed.
+
+Lemma loop_tannots_enc X K tbl : xtable_ok X = true -> forall l rest, forallb (tannot_ok X K tbl) l = true ->
+  loop_tannots X K tbl (length l) (flat_map (enc_tannot X tbl) l ++ rest) = Ok (l, rest).
+Proof.
+  intros HX l. induction l as [|a l IH]; intros rest H; [reflexivity|].
+  cbn [forallb] in H. apply andb_true_iff in H as [Ha Hl].
+  cbn [length loop_tannots flat_map]. rewrite <- app_assoc, (p_tannot_enc X K tbl a _ HX Ha), (IH rest Hl). reflexivity.
+Qed.
+
+(* type annotations: the body of a RuntimeVisibleTypeAnnotations / RuntimeInvisibleTypeAnnotations attribute at location [loc]:
+   the parser inverts the JVMS encoding and consumes exactly it — for every table of target types, every location it has arms for *)
+Theorem p_type_annotations_enc X Y loc tbl : xtable_ok X = true -> assocN loc (ty_targets Y) = Some tbl ->
+  forall l rest, forallb (tannot_ok X (ty_path Y) tbl) l = true ->
+    p_type_annotations X Y loc (enc_type_annotations X tbl l ++ rest) = Ok (l, rest).
+Proof.
+  intros HX Hl l rest Hok. unfold p_type_annotations, enc_type_annotations. rewrite Hl, <- app_assoc, rd16_e16, to_nat_elen.
+  apply loop_tannots_enc; assumption.
+Qed.
+
+(* a target type the location has no arm for is refused (`tag => bail!(…)`), whatever follows *)
+Theorem p_type_annotations_foreign_target X Y loc tbl t n rest : assocN loc (ty_targets Y) = Some tbl -> assocN t tbl = None ->
+  p_type_annotations X Y loc (e16 (N.succ n) ++ t :: rest) = Err.
+Proof.
+  intros Hl Ht. unfold p_type_annotations. rewrite Hl, rd16_e16.
+  destruct (N.to_nat (N.succ n)) as [|k] eqn:E; [lia|].
+  cbn [loop_tannots]. unfold p_tannot, p_target. cbn [rd8]. rewrite Ht. reflexivity.
+Qed.
+
+(* an index on a type_path_kind that carries none is refused *)
+Theorem p_type_path_index_refused K k i rest : assocN k K = Some false -> i <> 0 ->
+  p_type_path K (1 :: k :: i :: rest) = Err.
+Proof.
+  intros Hk Hi. unfold p_type_path. cbn [rd8]. change (N.to_nat 1) with 1%nat. cbn [loop_path rd8]. rewrite Hk.
+  apply N.eqb_neq in Hi. rewrite Hi. reflexivity.
+Qed.
+
+Theorem attr_value_type_annotations X V rs loc name tbl l : xtable_ok X = true ->
+  existsb (str_eqb name) (vn_type_annotations V) = true -> assocN loc (ty_targets (vn_types V)) = Some tbl ->
+  forallb (tannot_ok X (ty_path (vn_types V)) tbl) l = true ->
+  attr_value X V rs loc name false (enc_type_annotations X tbl l) = Some (canon_type_annotations X rs l).
+Proof.
+  intros HX Hn Hl Hok. unfold attr_value. rewrite Hn.
+  rewrite <- (app_nil_r (enc_type_annotations X tbl l)), (p_type_annotations_enc X (vn_types V) loc tbl HX Hl l [] Hok). reflexivity.
 Qed.
 
 (* the table read off class_reader.rs today passes the finite check *)
@@ -285,3 +382,25 @@ Definition values_nonvacuous : Prop :=
 
 Theorem values_nonvacuous_holds : values_nonvacuous.
 Proof. repeat split; vm_compute; reflexivity. Qed.
+
+(* non-vacuity for type annotations, with the tables read off the source today: on a method, @A(x = 1) on the type argument 2
+   of the array element type of formal parameter 1; inside Code, @A on a local variable living in slot 1 over [0, 5) and on the
+   first type of the cast at offset 3.  They satisfy [tannot_ok], their encodings are the expected bytes and parse back.
+   A FIELD target (0x13) inside a method_info is refused: the impl for methods has no such arm (C01's finding F13t). *)
+Definition tbl_at (loc : N) : ttable := match assocN loc targets_gen with Some t => t | None => [] end.
+Definition ex_ta_method : tannot := mkTA 22 [TVNum 1] [(0, 0); (3, 2)] 5 [(6, XConst 73 7)].
+Definition ex_ta_code : list tannot := [mkTA 64 [TVTable [(0, 5, 1)]] [] 5 []; mkTA 71 [TVNum 3; TVNum 0] [(1, 0)] 5 []].
+Definition type_values_nonvacuous : Prop :=
+  forallb (tannot_ok xtable_gen path_kinds_gen (tbl_at 2)) [ex_ta_method] = true
+  /\ forallb (tannot_ok xtable_gen path_kinds_gen (tbl_at 3)) ex_ta_code = true
+  /\ enc_type_annotations xtable_gen (tbl_at 2) [ex_ta_method] = [0;1; 22; 1; 2; 0;0; 3;2; 0;5; 0;1; 0;6; 73; 0;7]
+  /\ enc_type_annotations xtable_gen (tbl_at 3) ex_ta_code = [0;2; 64; 0;1; 0;0; 0;5; 0;1; 0; 0;5; 0;0;  71; 0;3; 0; 1; 1;0; 0;5; 0;0]
+  /\ p_type_annotations xtable_gen (vn_types vnames_gen) 2 (enc_type_annotations xtable_gen (tbl_at 2) [ex_ta_method]) = Ok ([ex_ta_method], [])
+  /\ p_type_annotations xtable_gen (vn_types vnames_gen) 3 (enc_type_annotations xtable_gen (tbl_at 3) ex_ta_code) = Ok (ex_ta_code, [])
+  /\ (forall rs, attr_value xtable_gen vnames_gen rs 3 (nth 0 type_annotation_attrs_gen []) false (enc_type_annotations xtable_gen (tbl_at 3) ex_ta_code)
+                 = Some [2; 64; 1; 0; 5; 1; 0; rs_str rs 5; 0;  71; 3; 0; 1; 1; 0; rs_str rs 5; 0])
+  /\ p_type_annotations xtable_gen (vn_types vnames_gen) 2 [0;1; 19; 0; 0;5; 0;0] = Err
+  /\ p_type_annotations xtable_gen (vn_types vnames_gen) 1 [0;1; 19; 0; 0;5; 0;0] = Ok ([mkTA 19 [] [] 5 []], []).
+
+Theorem type_values_nonvacuous_holds : type_values_nonvacuous.
+Proof. unfold type_values_nonvacuous. repeat split; try (vm_compute; reflexivity). Qed.
